@@ -771,6 +771,12 @@ def c13op (r : C13Run) (op : String) : C13Run :=
     | some 'S' =>
       let l := if r.st.tokens < r.st.cap then LimLabel.tryAcquire i else LimLabel.startWait i
       (match limStep r.st l with | some s => { r with st := s } | none => { r with ok := false })
+    | some 'D' =>
+      -- a read whose session is already gone when it starts, on a file that has already ended: whichever way the
+      -- first select goes (slot or Done), the read is over at once and holds nothing
+      let r := { r with cancelled := i :: r.cancelled, fileEnded := i :: r.fileEnded }
+      let l := if r.st.tokens < r.st.cap then LimLabel.tryAcquire i else LimLabel.startWait i
+      (match limStep r.st l with | some s => { r with st := s } | none => { r with ok := false })
     | some 'C' => { r with cancelled := i :: r.cancelled }
     | some 'F' => { r with fileEnded := i :: r.fileEnded }
     | _ => { r with ok := false }
